@@ -17,7 +17,7 @@
 From Coq Require Import String.
 Require Import Hdl21.Base.PyInt Hdl21.Spec.PySlice Hdl21.Model.Slice Hdl21.Model.Resolve Hdl21.Base.Design
                Hdl21.Spec.WfDesign Hdl21.Base.Package Hdl21.Corr.C03 Hdl21.Corr.C01 Hdl21.Model.C01EElab Hdl21.Corr.C01E
-               Hdl21.Model.C02EPipeline Hdl21.Model.C07EConcrete Hdl21.Proofs.C07EProofsChain.
+               Hdl21.Model.C02EPipeline Hdl21.Model.C07EConcrete Hdl21.Proofs.C07EProofsChain Hdl21.Proofs.C07EProofsFail.
 Open Scope Z_scope.
 
 Record c07e_case := {
@@ -124,3 +124,36 @@ Fixpoint dbg_calls (c : c07e_case) (st : cstate) (h : list PM.op) (rs : list (bo
   | _, _ => []
   end.
 Definition dbg_c07e (c : c07e_case) : list Z := dbg_calls c (cfresh (e_design c)) (e_hist c) (e_impl c).
+
+(* ------------------------------------------------------------------------------------------------ C08E: failure points
+   One to_proto(module t) call in a fresh process under logging subclasses of the default passes: the implementation reports
+   the (entry, module) whose body raised (None: the call returned, or raised outside a pass body).  The model: the machine of
+   Model/C08PassFail.v (policy `repaired`) run with the failure points of the concrete bodies as its oracle, each point encoded
+   in its error identity, so that the FIRST point the traversal meets can be read off the error the call ends with.
+   Codes: 0 same verdict and same failing (entry, module); 2 differ; 5 outside the modelled fragment; 3 malformed. *)
+Record c08e_case := { f_design : design; f_xinfo : xinfo; f_top : nat; f_ok : bool; f_point : option (nat * nat) }.
+
+Definition enc_point (p m : nat) (e : err) : Z := 1 + Z.of_nat p + 100 * Z.of_nat m.
+
+Definition model_point (c : c08e_case) : option (option (nat * nat)) :=
+  match snd (fst (PF.do_call PF.repaired PF.init (ccall_with enc_point true (f_xinfo c) (f_design c) [f_top c] true))) with
+  | None => Some None
+  | Some (PF.CE z) => Some (Some (Z.to_nat ((z - 1) mod 100), Z.to_nat ((z - 1) / 100)))
+  | Some _ => None
+  end.
+
+Definition chk_c08e (c : c08e_case) : Z :=
+  match hier_design (f_design c) with
+  | Error _ => 3
+  | Ok _ =>
+      if negb (frag_conns (f_design c)) then 5 else
+      match model_point c, f_ok c, f_point c with
+      | Some None, true, None => 0
+      | Some (Some (p, m)), false, Some (q, k) => if Nat.eqb p q && Nat.eqb m k then 0 else 2
+      | None, _, _ => 3
+      | _, _, _ => 2
+      end
+  end.
+
+Definition dbg_c08e (c : c08e_case) : option (option (nat * nat)) * list (nat * nat * Z) :=
+  (model_point c, failure_points_with enc_point true (f_xinfo c) (f_design c)).
